@@ -19,6 +19,22 @@ import (
 
 const Root = "/verif"
 
+// Out is where evidence/ and replays/ are written (differs from Root only in mutant trials).
+func Out() string {
+	if o := os.Getenv("VERIF_OUT"); o != "" {
+		return o
+	}
+	return Root
+}
+
+// Repo is the juno tree the harness was built against.
+func Repo() string {
+	if o := os.Getenv("VERIF_REPO"); o != "" {
+		return o
+	}
+	return "/repo"
+}
+
 type Finding struct {
 	Property string `json:"property"`
 	Status   string `json:"status"` // "known" | "fixed"
@@ -206,14 +222,14 @@ func (r *Run) Finish() {
 		}
 	}
 	sort.Slice(unknown, func(i, j int) bool { return unknown[i].Key < unknown[j].Key })
-	os.MkdirAll(filepath.Join(Root, "replays"), 0o755)
+	os.MkdirAll(filepath.Join(Out(), "replays"), 0o755)
 	for i, v := range unknown {
 		if i >= 20 {
 			fmt.Printf("... %d more violations suppressed\n", len(unknown)-i)
 			break
 		}
 		h := sha256.Sum256([]byte(v.Key))
-		p := filepath.Join(Root, "replays", fmt.Sprintf("%s-%s.json", r.ID, hex.EncodeToString(h[:6])))
+		p := filepath.Join(Out(), "replays", fmt.Sprintf("%s-%s.json", r.ID, hex.EncodeToString(h[:6])))
 		b, _ := json.MarshalIndent(map[string]any{"property": r.ID, "key": v.Key, "detail": v.Detail, "tier": r.Tier}, "", " ")
 		os.WriteFile(p, b, 0o644)
 		fmt.Printf("VIOLATION property=%s replay=%s\n  key: %s\n", r.ID, p, v.Key)
@@ -246,8 +262,8 @@ func (r *Run) Finish() {
 		"violations": len(unknown),
 	}
 	b, _ := json.MarshalIndent(out, "", " ")
-	os.MkdirAll(filepath.Join(Root, "evidence"), 0o755)
-	if err := os.WriteFile(filepath.Join(Root, "evidence", r.ID+".json"), b, 0o644); err != nil {
+	os.MkdirAll(filepath.Join(Out(), "evidence"), 0o755)
+	if err := os.WriteFile(filepath.Join(Out(), "evidence", r.ID+".json"), b, 0o644); err != nil {
 		fmt.Println("INFRA-ERROR cannot write evidence:", err)
 		os.Exit(2)
 	}
